@@ -467,6 +467,10 @@ def gen_history(rng, n_ops, mode=None):
     market_share = rng.choice([0.0, 0.1, 0.25, 0.5])
     ttl_mode = rng.choice(["short", "short", "mixed", "none"])
     nlev = rng.choice([2, 3, 5, 9])
+    # "penny" histories: limit prices around zero - exactly 0.0, below one tick (a buy is floored to 0.0), negative
+    # (Order.__init__ only warns about them, so they are inputs: "any price on or off the tick grid")
+    penny = rng.random() < 0.1
+    pref = tick * rng.randint(0, 2) if penny else ref
     time = 0
     mutating = 0
 
@@ -495,7 +499,7 @@ def gen_history(rng, n_ops, mode=None):
                 # bias towards crossing: buys a bit high, sells a bit low
                 if rng.random() < 0.35:
                     lvl = abs(lvl) if is_buy else -abs(lvl)
-                price = ref + lvl * tick
+                price = pref + lvl * tick
                 g = rng.random()
                 if g < 0.15:
                     price += tick / 2
@@ -503,7 +507,7 @@ def gen_history(rng, n_ops, mode=None):
                     price += tick / 4 * rng.choice([1, 3])
                 elif g < 0.23:
                     price = float(int(price)) if price == int(price) else price
-                if price <= 0:
+                if price <= 0 and not penny:
                     price = tick
             vol = rng.choice([1, 1, 2, 3, 5, 8])
             if ttl_mode == "none":
